@@ -240,6 +240,10 @@ fn random_range_list(rng: &mut Rng, doc: &[u8], bounds: &[usize]) -> Vec<(usize,
 /// them; the ranges are exactly the fragments, so the concatenation is the original sentence.
 fn templated(rng: &mut Rng, text: &[u8], bounds: &[usize]) -> (Vec<u8>, Vec<(usize, usize)>) {
     let junk: [&[u8]; 12] = [b"<% x %>", b"###", b"\n", "é€".as_bytes(), b"<<>>", b" ", b"\n\n  ", b"}", b"\xff\xfe", b"0", "😀".as_bytes(), b"(("];
+    // half of the templates keep every gap on one line (no newline in the junk): columns of the included
+    // characters are then the same in the document and in the concatenation (column-sensitive scanners)
+    let same_line = rng.chance(1, 2);
+    let junk: Vec<&[u8]> = junk.iter().copied().filter(|j| !same_line || !j.contains(&b'\n')).collect();
     let n = text.len();
     let k = rng.range(1, 6);
     let mut cuts: Vec<usize> = (0..k).map(|_| if bounds.is_empty() || rng.chance(1, 6) { rng.below(n + 1) } else { (*rng.pick(bounds)).min(n) }).collect();
